@@ -55,6 +55,21 @@ theorem bad_name_refused (s : St) (user : Bytes) (realm : Option Bytes) (hash : 
     setHash s user realm hash = .error .valueError ∧ delete s user realm = .error .valueError ∧
     getHash s user realm = .error .valueError := bad_field_refused s user realm hash hbad
 
+/-- the refused bytes and the bound are the ones the property names, as read from passlib/apache.py on this run:
+    ':' (58), LF (10), CR (13), TAB (9), NUL (0); more than 255 bytes -/
+theorem refused_bytes_and_bound : invalidFieldChars = [58, 10, 13, 9, 0] ∧ maxFieldLen = 255 :=
+  ⟨invalidFieldChars_eq, maxFieldLen_eq⟩
+
+/-- … hence a name with any of them, or a longer one, is refused by every method (state unchanged: the methods return the error) -/
+theorem separator_or_overlong_name_refused (s : St) (user : Bytes) (realm : Option Bytes) (hash : Bytes)
+    (hbad : 255 < user.length ∨ 58 ∈ user ∨ 10 ∈ user ∨ 13 ∈ user ∨ 9 ∈ user ∨ 0 ∈ user) :
+    setHash s user realm hash = .error .valueError ∧ delete s user realm = .error .valueError ∧
+    getHash s user realm = .error .valueError := by
+  apply bad_field_refused
+  rcases hbad with h | h | h | h | h | h
+  · exact Or.inl h
+  all_goals exact Or.inr ⟨_, h, by rw [invalidFieldChars_eq]; decide⟩
+
 /-! ### dictionary semantics of the operations (refinement to a finite map) -/
 theorem get_after_set (s : St) (k : Key) (v : Bytes) : lookup k (setRecord s k v).1.records = some v :=
   lookup_setItem_self k v s.records
